@@ -631,6 +631,8 @@ def rule_R8(ctx):
 
 
 def run(ctx):
+    from . import _narrow as N
+    N.narrowing_preserved(ctx, ctx.program, "R8", ("huginn_net_db",))
     rule_R11(ctx)
     rule_R10(ctx)
     rule_R8(ctx)
